@@ -278,4 +278,74 @@ theorem tokenize_name {v : Str} (hv : wfName v) : tokenize v = [v] := by
   | nil => exact absurd (by simpa using h) hv.1
   | cons a as => simp only [tokGo, List.isEmpty_cons, Bool.false_eq_true, if_false]; rw [← h]; simp
 
+/-! ## latest through the stacks -/
+
+/-- what the loop over the stacks maintains: the candidate is a seen version that no seen version exceeds -/
+def AcrossInv (out : Option (Nat × Str × Lexed)) (seen : List Str) : Prop :=
+  match out with
+  | none => seen = []
+  | some (_, w, lw) => lex w = .ok lw ∧ convLexed lw = true ∧ w ∈ seen ∧
+      ∀ y ∈ seen, ∃ ly, lex y = .ok ly ∧ convLexed ly = true ∧ cmpSort ly lw ≤ 0
+
+theorem latestAcrossGo_spec (rest : List (List Str)) :
+    ∀ (i : Nat) (out : Option (Nat × Str × Lexed)) (seen : List Str),
+      (∀ st ∈ rest, ∀ v ∈ st, convName v = true) → AcrossInv out seen →
+      ∃ out', latestAcrossGo i out rest = .ok out' ∧ AcrossInv out' (seen ++ rest.flatten) := by
+  induction rest with
+  | nil => intro i out seen _ h; exact ⟨out, rfl, by simpa using h⟩
+  | cons st rest ih =>
+    intro i out seen hconv hinv
+    obtain ⟨ps, hps, hc⟩ := lexPairs_of_conv (hconv st (by simp))
+    obtain ⟨hmap, hlex⟩ := lexPairs_spec hps
+    have hrest : ∀ st' ∈ rest, ∀ v ∈ st', convName v = true := fun st' h' => hconv st' (by simp [h'])
+    have hflat : seen ++ (st :: rest).flatten = (seen ++ st) ++ rest.flatten := by simp
+    rw [hflat]
+    simp only [latestAcrossGo, hps]
+    by_cases hne : ps = []
+    · subst hne
+      simp only [List.map_nil] at hmap
+      subst hmap
+      simp only [lastMax, List.append_nil]
+      exact ih (i + 1) out seen hrest hinv
+    · obtain ⟨m, hm, hmem, hmax⟩ := lastMax_none_spec ps hne hc
+      obtain ⟨v, l⟩ := m
+      have hvst : v ∈ st := by rw [← hmap]; exact List.mem_map_of_mem (f := Prod.fst) hmem
+      have hst : ∀ y ∈ st, ∃ ly, lex y = .ok ly ∧ convLexed ly = true ∧ cmpSort ly l ≤ 0 := by
+        intro y hy
+        rw [← hmap] at hy
+        obtain ⟨p, hp, rfl⟩ := List.mem_map.mp hy
+        exact ⟨p.2, hlex p hp, hc p hp, hmax p hp⟩
+      have hl : lex v = .ok l := hlex (v, l) hmem
+      have hcl : convLexed l = true := hc (v, l) hmem
+      simp only [hm]
+      cases out with
+      | none =>
+        simp only [AcrossInv] at hinv
+        subst hinv
+        apply ih (i + 1) _ _ hrest
+        simp only [AcrossInv, List.nil_append]
+        exact ⟨hl, hcl, hvst, hst⟩
+      | some o =>
+        obtain ⟨j, w, lw⟩ := o
+        obtain ⟨hw, hcw, hwm, hall⟩ := hinv
+        simp only
+        by_cases hgt : cmpSort l lw > 0
+        · simp only [hgt, if_true]
+          apply ih (i + 1) _ _ hrest
+          refine ⟨hl, hcl, by simp [hvst], ?_⟩
+          intro y hy
+          rcases List.mem_append.mp hy with hy | hy
+          · obtain ⟨ly, h1, h2, h3⟩ := hall y hy
+            have : cmpSort lw l ≤ 0 := by rw [cmpSort_antisym]; omega
+            exact ⟨ly, h1, h2, good_cmpSort.trans ly lw l h2 hcw hcl h3 this⟩
+          · exact hst y hy
+        · simp only [hgt, if_false]
+          apply ih (i + 1) _ _ hrest
+          refine ⟨hw, hcw, by simp [hwm], ?_⟩
+          intro y hy
+          rcases List.mem_append.mp hy with hy | hy
+          · exact hall y hy
+          · obtain ⟨ly, h1, h2, h3⟩ := hst y hy
+            exact ⟨ly, h1, h2, good_cmpSort.trans ly l lw h2 hcl hcw h3 (by omega)⟩
+
 end EupsModel.VersionCmp
